@@ -66,7 +66,10 @@ impl DecodeAttributeValue for ChangeRequest {
     fn decode(ctx: AttributeDecoderContext) -> Result<(Self, usize), crate::StunError> {
         use crate::Decode;
         let (value, size) = u32::decode(ctx.raw_value())?;
-        Ok((ChangeRequest(value), size))
+        // Only the "change IP" and "change port" flags are defined, the
+        // remaining bits are reserved and must be ignored by the receiver
+        let flags = BitFlags::<ChangeRequestFlags>::from_bits_truncate(value);
+        Ok((ChangeRequest(flags.bits()), size))
     }
 }
 
